@@ -508,7 +508,8 @@ class HyperscanTokenizer(Tokenizer):
         """Extract tokens via hyperscan."""
         # Get all matches, with byte offsets because hyperscan uses
         # bytes instead of unicode:
-        text_bytes = text.encode("utf8")
+        # surrogatepass: a lone surrogate is a legal str character
+        text_bytes = text.encode("utf8", "surrogatepass")
         matches = []
 
         def on_match(index, start, end, flags, context):
@@ -526,7 +527,9 @@ class HyperscanTokenizer(Tokenizer):
         for byte_offset in byte_offsets:
             try:
                 str_offset += len(
-                    text_bytes[last_byte_offset:byte_offset].decode("utf8")
+                    text_bytes[last_byte_offset:byte_offset].decode(
+                        "utf8", "surrogatepass"
+                    )
                 )
             except UnicodeDecodeError:
                 # offsets will fail to decode for invalid regex matches
